@@ -417,14 +417,20 @@ def an_C18(mod, name, paths, fq):
         out.append(rec(ob, 'proved', 'symbolic execution: no host symbol in text, guards or path conditions', 0, fq))
     else:
         hs = sorted(set(h.split('.dom')[0].split('.val')[0] for h in hosts))
-        extra = host_key_constraints(where) if where is not None else []
-        req, model = decoders.concretize(where, extra) if where is not None else (None, None)
         viol = {'request': None, 'what': '%s: text depends on host table(s) %s' % (name, ', '.join(hs)),
                 'solver_output': 'host symbols occur in the symbolic result: %s' % ', '.join(hs), 'hosts': hs}
-        if req is not None:
-            a = dict(req, host=HOST_A)
-            b = dict(req, host=HOST_B)
-            viol['request'] = {'kind': 'decoder_pair', 'a': a, 'b': b, 'mode': 'must_equal'}
+        # candidate paths: those that *show* a host value first, then those that only branch on one
+        cands = [x for x in paths if x.text is not None and any(n.startswith('host.') for conds, toks in textform.flatten(x.text)
+                                                                for tk in toks for t in textform.token_terms(tk) for n in sym_names(t))]
+        cands += [x for x in paths if x not in cands and any(n.startswith('host.') for c in x.pc for n in sym_names(c))]
+        reqs = []
+        for cand in cands[:4]:
+            req, model = decoders.concretize(cand, host_key_constraints(cand))
+            if req is not None:
+                reqs.append({'kind': 'decoder_pair', 'a': dict(req, host=HOST_A), 'b': dict(req, host=HOST_B), 'mode': 'must_equal'})
+        if reqs:
+            viol['request'] = reqs[0]
+            viol['alternatives'] = reqs[1:]
         out.append(rec(ob, 'refuted', 'symbolic execution', 0, fq, ', '.join(hs), viol=viol))
     return out
 
@@ -436,7 +442,7 @@ HOST_A = {'name': 'platform-A', 'errorcode': {str(i): 'EA%d' % i for i in range(
 HOST_B = {'name': 'platform-B', 'errorcode': {str(i): 'EB%d' % i for i in range(1, 200)},
           'Signals': {str(i): 'SIGB%d' % i for i in range(1, 65)},
           'AddressFamily': {str(i): 'AF_B%d' % i for i in range(0, 64)},
-          'SocketKind': {str(i): 'SOCK_B%d' % i for i in range(1, 16)}, 'SOL_SOCKET': 0xffff}
+          'SocketKind': {str(i): 'SOCK_B%d' % i for i in range(1, 16)}, 'SOL_SOCKET': 0xffff, 'shift_constants': 1000}
 
 
 def host_key_constraints(s):
@@ -450,7 +456,7 @@ def host_key_constraints(s):
         seen.add(t.get_id())
         if z3.is_select(t) and z3.is_const(t.arg(0)) and t.arg(0).decl().name().startswith('host.'):
             k = t.arg(1)
-            out.append(z3.And(k >= 1, k <= 100))
+            out.append(z3.And(k >= 1, k <= 199))
         if z3.is_app(t) and t.decl().kind() == z3.Z3_OP_UNINTERPRETED and t.decl().name().startswith('host.') \
                 and t.num_args() == 1:
             k = t.arg(0)
@@ -753,9 +759,14 @@ def absorb(run, recs, replay=True):
             v = r['viol'] or {}
             reproduced = False
             nat = None
-            if v.get('request') is not None and replay:
-                nat = native(v['request'])
-                reproduced = bool(nat.get('violates'))
+            if v.get('request') is not None and replay and run.native_replays < 60:
+                for rq in [v['request']] + list(v.get('alternatives') or []):
+                    run.native_replays += 1
+                    nat = native(rq)
+                    reproduced = bool(nat.get('violates'))
+                    if reproduced:
+                        v['request'] = rq
+                        break
             known = run.known_for(r['name'])
             run.add(r['name'], 'known-finding' if known else 'refuted', r['backend'], r['ms'], r['function'], r['detail'], r['kind'])
             run.violation(r['name'], {'request': v.get('request'), 'native': nat, 'solver_output': v.get('solver_output', ''),
